@@ -4,3 +4,5 @@ import MpdSpec.Grammar
 import MpdSpec.FrameSpec
 import MpdSpec.Listing
 import MpdSpec.FilterParse
+import MpdSpec.Records
+import MpdSpec.Views
